@@ -783,3 +783,12 @@ Proof.
   exists (message_object r). split; [reflexivity|].
   apply Forall_forall. apply ge32_message_object.
 Qed.
+
+Theorem one_newline r : count_occ N.eq_dec (encode_record r) 10 = 1%nat.
+Proof.
+  destruct (one_line r) as [body [-> Hb]].
+  rewrite count_occ_app. cbn [count_occ].
+  destruct (N.eq_dec 10 10) as [_|Hn]; [|congruence].
+  replace (count_occ N.eq_dec body 10) with 0%nat; [reflexivity|].
+  symmetry. apply count_occ_not_In. intros Hin. apply Hb in Hin. lia.
+Qed.
